@@ -164,6 +164,13 @@ def c01_cls(ctx, case):
     compare(ctx, got, exp, tag + ".psd vs |DFT(x*w)|^2/N", sig={"api": "Periodogram", "dtype": "complex" if cplx else "real"})
     f = spectrum.speriodogram(x, NFFT=nfft, detrend=False, scale_by_freq=False, window=name)
     compare(ctx, got, np.asarray(f, dtype=float), tag + ".psd vs speriodogram", sig={"api": "Periodogram-vs-function"})
+    # the same object configured with another window: the class result is that of the window it is configured with now
+    other = "hamming" if name != "hamming" else "blackman"
+    w2 = window_or_skip(ctx, N, other)
+    if w2 is not None:
+        p.window = other
+        compare(ctx, p.psd, definition(x, w2, nfft, onesided=not cplx),
+                tag + " re-configured with window=%r: .psd vs |DFT(x*w)|^2/N" % other, sig={"api": "Periodogram", "clause": "window-changed"})
 
 
 # --------------------------------------------------------------------------
@@ -276,3 +283,14 @@ def c01_cols(ctx, case):
                 % (N, c, "complex" if cplx else "real", case["nfft"], name, j), sig=sig)
         one = np.asarray(spectrum.speriodogram(X[:, j], NFFT=nfft, detrend=False, scale_by_freq=False, window=name), dtype=float)
         compare(ctx, got[:, j], one, "column %d of the 2-D result vs the 1-D result of that column (window=%r)" % (j, name), sig=sig)
+
+
+# ---- number-type invariance (integer samples of a narrow dtype) -------------------
+from vlib import dtypecheck as _dt   # noqa: E402
+
+
+@sub("C01.dtype", strategy=_dt.int_case(sorted(_dt.TABLES["C01"])), quick=300, thorough=6000,
+     doc="the same integer-valued samples stored as int16/int8/uint8/uint16/int32/int64 or as float64 give the same result "
+         "(products of two narrow integers do not fit their dtype): " + ", ".join(sorted(_dt.TABLES["C01"])))
+def c01_dtype(ctx, case):
+    _dt.body(ctx, case, _dt.TABLES["C01"])
